@@ -61,6 +61,11 @@ PATCHES = {
          "const forcePreemptNS = 1 << 60 // verif: never\n"),
         ("func retake(now int64) uint32 {\n\tn := 0\n",
          "func retake(now int64) uint32 {\n\tif verifNoRetake {\n\t\treturn 0\n\t}\n\tn := 0\n"),
+        # Gosched of a bubbled goroutine goes to the tail of the LOCAL run queue: the global
+        # queue is polled every 61st scheduler tick, and the tick count is bumped by runtime
+        # background goroutines at wall-clock dependent moments
+        ("\t} else {\n\t\tlock(&sched.lock)\n\t\tglobrunqput(gp)\n\t\tunlock(&sched.lock)\n\t}\n\n\tif mainStarted {\n\t\twakep()\n\t}\n\n\tschedule()\n}\n",
+         "\t} else if gp.bubble != nil {\n\t\trunqput(pp, gp, false)\n\t} else {\n\t\tlock(&sched.lock)\n\t\tglobrunqput(gp)\n\t\tunlock(&sched.lock)\n\t}\n\n\tif mainStarted {\n\t\twakep()\n\t}\n\n\tschedule()\n}\n"),
         ("const randomizeScheduler = raceenabled\n",
          "const randomizeScheduler = false\n\nvar verifNoRetake = true\n"),
     ],
